@@ -287,12 +287,12 @@ Fixpoint span_while (p : N -> bool) (s : bytes) : bytes * bytes :=   (* longest 
 Fixpoint drop_while (p : N -> bool) (s : bytes) : bytes :=
   match s with [] => [] | x :: r => if p x then drop_while p r else s end.
 
-Definition level_names : list bytes :=
+Definition level_tok_names : list bytes :=
   [[116; 114; 97; 99; 101]; [100; 101; 98; 117; 103]; [105; 110; 102; 111]; [119; 97; 114; 110];
    [101; 114; 114; 111; 114]; [111; 102; 102]].
 (** (?i:trace|debug|info|warn|error|off|[0-5]) against a whole string *)
 Definition is_level_tok (s : bytes) : bool :=
-  existsb (eq_ic s) level_names || match s with [d] => in_range 48 53 d | _ => false end.
+  existsb (eq_ic s) level_tok_names || match s with [d] => in_range 48 53 d | _ => false end.
 
 Inductive part := PT (t : bytes) | PB (inner : bytes).
 Definition take_part (s : bytes) : option (part * bytes) :=
@@ -573,9 +573,9 @@ Definition matcher (dyn : dyset) (m : meta) : option cs_matcher :=
   end.
 
 (** visiting recorded values: sticky per-field flags *)
-Definition record_one (nv : bytes * rval) (sm : sp_match) : sp_match :=
+Definition record_one (nv : bytes * rval) (sm : sp_match) : sp_match :=     (* matched.store(true) when the value matches *)
   mk_sp_match (map (fun e => let '(k, (v, flag)) := e in
-                             if list_eqb k (fst nv) && vm_matches v (snd nv) then (k, (v, true)) else e) (sm_fields sm))
+                             (k, (v, flag || (list_eqb k (fst nv) && vm_matches v (snd nv))))) (sm_fields sm))
               (sm_level sm).
 Definition record_vals (vals : list (bytes * rval)) (sm : sp_match) : sp_match := fold_left (fun s nv => record_one nv s) vals sm.
 Definition to_span_match (cm : cs_matcher) (vals : list (bytes * rval)) : sp_matcher :=
@@ -595,8 +595,8 @@ Fixpoint assoc_n {A} (k : N) (l : list (N * A)) : option A :=
   match l with [] => None | (k', v) :: r => if k =? k' then Some v else assoc_n k r end.
 Fixpoint put_n {A} (k : N) (v : A) (l : list (N * A)) : list (N * A) :=
   match l with [] => [(k, v)] | (k', v') :: r => if k =? k' then (k, v) :: r else (k', v') :: put_n k v r end.
-Fixpoint del_n {A} (k : N) (l : list (N * A)) : list (N * A) :=
-  match l with [] => [] | (k', v') :: r => if k =? k' then r else (k', v') :: del_n k r end.
+Fixpoint del_n {A} (k : N) (l : list (N * A)) : list (N * A) :=           (* HashMap::remove *)
+  match l with [] => [] | (k', v') :: r => if k =? k' then del_n k r else (k', v') :: del_n k r end.
 
 Record est := mk_est { by_cs : list (N * cs_matcher); by_id : list (N * sp_matcher); scope : list (N * list (option lv)) }.
 Definition est0 : est := mk_est [] [] [].
